@@ -19,9 +19,12 @@ type impFn struct {
 	fd         *ast.FuncDecl
 	name       string
 	recvTy     *ity
+	recvRO     bool            // the receiver is never assigned: the def returns the results only
 	retSelf    bool            // the single result is the receiver pointer itself
 	bigFresh   map[string]bool // big.Int variables currently bound to a fresh object (pool.BigInt.Get): may be overwritten
 	bigUninit  map[string]bool // … whose contents have not been set yet: may not be read
+	seenStmt   bool            // a statement other than an entry `if … { panic }` has been translated
+	inAddr     bool            // the composite literal being translated is the operand of &
 	bigScratch map[string]bool // … declared by `x := pool.BigInt.Get()` (checkBigScratch: never re-assigned or aliased): fresh in its whole scope
 	bigDead    map[string]bool // … that have been given back to the pool (pool.BigInt.Put): may not be used any more
 	bigLocal   map[string]bool // `var x big.Int` locals (values owned by the function)
@@ -100,6 +103,7 @@ func (f *impFn) declare(at ast.Node, n string, t *ity) {
 		f.p.die(at, "the variable %s has the name of a parameter of the generated defs", n)
 	}
 	f.scopes[len(f.scopes)-1][n] = t
+	f.killGuards(n) // a guard recorded for an earlier variable of the same name (out of scope by now) says nothing about this one
 	for _, d := range f.declOrd {
 		if d == n {
 			return
@@ -120,12 +124,91 @@ func pathPrefix(a, b string) bool {
 	return a == b || strings.HasPrefix(b, a+".") || strings.HasPrefix(b, a+"[")
 }
 
+// Besides the nil-guards, f.nonNil holds (under the key freshKey+path) the list-node pointers that are FRESH: the path was assigned
+// `&T{…}` and the pointer has not been read as a value since, so the node is referenced by that path only and a field write
+// through it is a value update of that path.
+const freshKey = "#fresh:"
+
 func (f *impFn) killGuards(lhs string) {
 	for g := range f.nonNil {
-		if pathPrefix(lhs, g) || pathPrefix(g, lhs) {
+		q := strings.TrimPrefix(g, freshKey)
+		if pathPrefix(lhs, q) || pathPrefix(q, lhs) {
 			delete(f.nonNil, g)
 		}
 	}
+}
+
+// the value at path (a pointer, or a struct containing pointers) is read: whatever is fresh at or below it may now be aliased
+func (f *impFn) dropFresh(path string) {
+	for g := range f.nonNil {
+		if strings.HasPrefix(g, freshKey) && (path == "" || pathPrefix(path, g[len(freshKey):])) {
+			delete(f.nonNil, g)
+		}
+	}
+}
+
+func (f *impFn) saveFresh() []string {
+	var out []string
+	for g := range f.nonNil {
+		if strings.HasPrefix(g, freshKey) {
+			out = append(out, g)
+		}
+	}
+	return out
+}
+
+func (f *impFn) restoreFresh(gs []string) {
+	for _, g := range gs {
+		f.nonNil[g] = true
+	}
+}
+
+// is the pointer expression syntactically / by a recorded guard non-nil?  second result: it is a fresh `&T{…}`
+func (f *impFn) rhsNonNil(e ast.Expr) (bool, bool) {
+	if u, ok := e.(*ast.UnaryExpr); ok && u.Op == token.AND {
+		if _, ok := u.X.(*ast.CompositeLit); ok {
+			return true, true
+		}
+	}
+	if c, ok := e.(*ast.CallExpr); ok {
+		if id, ok := c.Fun.(*ast.Ident); ok && f.lookup(id.Name) == nil && f.p.translated[id.Name] != nil && f.p.translated[id.Name].nonNilRe {
+			return true, false
+		}
+		return false, false
+	}
+	return f.nonNil[exprText(e)], false
+}
+
+// call of a method translated before, on the receiver: Lean text; entry conditions are checked here
+func (f *impFn) recvMethodCall(v *ast.CallExpr, name string, m *impMeth, c *ictx) string {
+	p := f.p
+	if len(m.params) != len(v.Args) || v.Ellipsis.IsValid() {
+		p.die(v, "call of %s: arity", name)
+	}
+	callee := p.funcs[name].Recv.List[0].Names[0].Name
+	for _, g := range p.tg.pre[name] {
+		if !pathPrefix(callee, g) {
+			p.die(v, "entry condition %s of %s is not a path of its receiver", g, name)
+		}
+		if h := f.recv + strings.TrimPrefix(g, callee); !f.nonNil[h] {
+			p.die(v, "call of %s: its entry condition %s != nil is not established here", name, h)
+		}
+	}
+	out := lname(name) + impAbsArgs + " " + lname(f.recv)
+	f.dropFresh(f.recv)
+	for i, a := range v.Args {
+		as, at := f.expr(a, m.params[i], c)
+		if !at.eq(m.params[i]) {
+			p.die(a, "argument %d of %s: %v expected, %v given", i, name, m.params[i], at)
+		}
+		out += " " + parenImp(as)
+	}
+	for i := 0; i < m.nfuel; i++ { // the loops of the callee: one fresh fuel parameter each
+		fu := fmt.Sprintf("fuel%d", len(f.fuels)+1)
+		f.fuels = append(f.fuels, fu)
+		out += " " + fu
+	}
+	return out
 }
 
 // ---------------------------------------------------------------------------------------------- expressions
@@ -196,7 +279,7 @@ func (f *impFn) expr(e ast.Expr, want *ity, c *ictx) (string, *ity) {
 	case *ast.Ident:
 		switch v.Name {
 		case "nil":
-			if want == nil || !(want.k == "slice" || want.k == "error" || want.k == "ptr" || want.k == "map") {
+			if want == nil || !(want.k == "slice" || want.k == "error" || want.k == "ptr" || want.k == "map" || want.k == "lptr" || want.k == "nslice") {
 				p.die(e, "nil without a slice / error / pointer / map context")
 			}
 			if want.k == "map" {
@@ -211,6 +294,9 @@ func (f *impFn) expr(e ast.Expr, want *ity, c *ictx) (string, *ity) {
 		if t := f.lookup(v.Name); t != nil {
 			if f.bigUninit[v.Name] {
 				p.die(e, "%s is read before the fresh big.Int it points to has been set", v.Name)
+			}
+			if t.k == "struct" || t.k == "lptr" {
+				f.dropFresh(v.Name)
 			}
 			if f.bigDead[v.Name] {
 				p.die(e, "%s is used after pool.BigInt.Put(%s)", v.Name, v.Name)
@@ -229,7 +315,21 @@ func (f *impFn) expr(e ast.Expr, want *ity, c *ictx) (string, *ity) {
 		if p.tg.ext && exprText(v) == "fr.Limbs" && f.lookup("fr") == nil {
 			return "limbs", tyInt // the number of 64-bit words of an fr.Element (parameter)
 		}
+		if id, ok := v.X.(*ast.Ident); ok && id.Name == "io" && f.lookup("io") == nil && (v.Sel.Name == "EOF" || v.Sel.Name == "ErrUnexpectedEOF") {
+			return "Err.sentinel \"io." + v.Sel.Name + "\"", tyErr
+		}
+		sv := f.saveFresh()
 		xs, xt := f.expr(v.X, nil, c)
+		f.restoreFresh(sv) // selecting a field does not copy the pointers of the other fields
+		if xt.k == "lptr" {
+			if !f.nonNil[exprText(v.X)] {
+				p.die(e, "dereference of %s is not guarded by a nil test", exprText(v.X))
+			}
+			if v.Sel.Name == p.listNext[xt.elem.name] {
+				return parenImp(xs) + ".tail", xt
+			}
+			xs, xt = "(nodeOf "+parenImp(xs)+")", xt.elem
+		}
 		if xt.k == "ptr" {
 			if !f.nonNil[exprText(v.X)] {
 				p.die(e, "dereference of %s is not guarded by a nil test", exprText(v.X))
@@ -241,6 +341,9 @@ func (f *impFn) expr(e ast.Expr, want *ity, c *ictx) (string, *ity) {
 		}
 		for _, fl := range p.structs[xt.name] {
 			if fl.name == v.Sel.Name {
+				if fl.ty.k == "struct" || fl.ty.k == "lptr" {
+					f.dropFresh(exprText(e))
+				}
 				return parenImp(xs) + "." + fl.name, fl.ty
 			}
 		}
@@ -272,6 +375,15 @@ func (f *impFn) expr(e ast.Expr, want *ity, c *ictx) (string, *ity) {
 		}
 		return "index " + parenImp(xs) + " " + parenImp(is), xt.elem
 	case *ast.SliceExpr:
+		if v.Low == nil && v.High != nil && v.Max == nil {
+			// x[:n]: the first n elements (n > cap(x) panics in Go: not modelled)
+			xs, xt := f.expr(v.X, nil, c)
+			ns, nt := f.expr(v.High, tyInt, c)
+			if xt.k != "slice" || nt.k != "int" {
+				p.die(e, "x[:n] on %v, %v", xt, nt)
+			}
+			return "List.take " + parenImp(ns) + ".toNat " + parenImp(xs), xt
+		}
 		if v.Low != nil || v.High != nil || v.Max != nil {
 			p.die(e, "slice expression with bounds")
 		}
@@ -296,6 +408,9 @@ func (f *impFn) expr(e ast.Expr, want *ity, c *ictx) (string, *ity) {
 			return "-" + parenImp(xs), tyInt
 		case token.AND:
 			if cl, ok := v.X.(*ast.CompositeLit); ok { // fresh object: by value
+				if t := p.goType(cl.Type); t.k == "struct" && p.listNext[t.name] != "" {
+					f.inAddr = true
+				}
 				return f.expr(cl, nil, c)
 			}
 			id, ok := v.X.(*ast.Ident)
@@ -331,6 +446,11 @@ func (f *impFn) expr(e ast.Expr, want *ity, c *ictx) (string, *ity) {
 		if t.k != "struct" {
 			p.die(e, "composite literal of %v", t)
 		}
+		isNode, nextS := p.listNext[t.name] != "", "[]"
+		if isNode && !f.inAddr {
+			p.die(e, "list node %s by value (only `&%s{…}`)", t.name, t.name)
+		}
+		f.inAddr = false
 		var parts []string
 		for _, el := range v.Elts {
 			kv, ok := el.(*ast.KeyValueExpr)
@@ -338,6 +458,15 @@ func (f *impFn) expr(e ast.Expr, want *ity, c *ictx) (string, *ity) {
 				p.die(el, "unkeyed composite literal")
 			}
 			fname := kv.Key.(*ast.Ident).Name
+			if isNode && fname == p.listNext[t.name] { // the new node in front of the chain it points to
+				lt := &ity{k: "lptr", elem: t}
+				vs, vt := f.expr(kv.Value, lt, c)
+				if !vt.eq(lt) {
+					p.die(el, "field %s: %v expected, %v given", fname, lt, vt)
+				}
+				nextS = vs
+				continue
+			}
 			var ft *ity
 			for _, fl := range p.structs[t.name] {
 				if fl.name == fname {
@@ -352,6 +481,9 @@ func (f *impFn) expr(e ast.Expr, want *ity, c *ictx) (string, *ity) {
 				p.die(el, "field %s: %v expected, %v given", fname, ft, vt)
 			}
 			parts = append(parts, fname+" := "+vs)
+		}
+		if isNode {
+			return "(({ " + strings.Join(parts, ", ") + " } : " + p.lty(t, true) + ") :: " + parenImp(nextS) + ")", &ity{k: "lptr", elem: t}
 		}
 		if len(parts) == 0 {
 			return "({} : " + p.lty(t, true) + ")", t
@@ -391,8 +523,15 @@ func (f *impFn) binary(v *ast.BinaryExpr, want *ity, c *ictx) (string, *ity) {
 		return parenImp(xs) + " " + op + " " + parenImp(ys), tyBool
 	case token.EQL, token.NEQ:
 		if id, ok := v.Y.(*ast.Ident); ok && id.Name == "nil" {
+			sv := f.saveFresh()
 			xs, xt := f.expr(v.X, nil, c)
+			f.restoreFresh(sv)
 			switch xt.k {
+			case "lptr":
+				if v.Op == token.EQL {
+					return parenImp(xs) + ".isEmpty", tyBool
+				}
+				return "!" + parenImp(xs) + ".isEmpty", tyBool
 			case "ptr", "nslice":
 				if v.Op == token.EQL {
 					return parenImp(xs) + ".isNone", tyBool
@@ -667,13 +806,28 @@ func (f *impFn) call(v *ast.CallExpr, want *ity, c *ictx) (string, *ity) {
 		}
 		return out, rt
 	}
+	if se, ok := v.Fun.(*ast.SelectorExpr); ok && f.recv != "" && !f.evRecv && exprText(se.X) == f.recv {
+		if m := p.recvMeths[se.Sel.Name]; m != nil {
+			if m.mutates || len(m.results) != 1 {
+				p.die(v, "call of the method %s in expression position (only methods that leave the receiver unchanged and have one result)", se.Sel.Name)
+			}
+			return f.recvMethodCall(v, se.Sel.Name, m, c), m.results[0]
+		}
+	}
 	if id, ok := v.Fun.(*ast.Ident); ok && f.lookup(id.Name) == nil && p.translated[id.Name] != nil {
 		// call of a package-local function translated before (pure: no receiver, one result)
 		sig := p.translated[id.Name]
 		if len(sig.params) != len(v.Args) || v.Ellipsis.IsValid() {
 			p.die(v, "call of %s: arity", id.Name)
 		}
-		out := lname(id.Name)
+		out := lname(id.Name) + impAbsArgs
+		for _, g := range p.tg.pre[id.Name] {
+			for i, pn := range sig.pnames {
+				if pn == g && !f.nonNil[exprText(v.Args[i])] {
+					p.die(v.Args[i], "call of %s: its entry condition %s != nil is not established for this argument", id.Name, g)
+				}
+			}
+		}
 		for i, a := range v.Args {
 			as, at := f.expr(a, sig.params[i], c)
 			if !at.eq(sig.params[i]) {
@@ -716,7 +870,11 @@ func (f *impFn) call(v *ast.CallExpr, want *ity, c *ictx) (string, *ity) {
 		}
 	case "uint", "uint64":
 		if len(v.Args) == 1 && f.lookup(exprText(v.Fun)) == nil {
-			xs, xt := f.expr(v.Args[0], nil, c)
+			var w *ity
+			if _, isLit := v.Args[0].(*ast.BasicLit); untypedConst(v.Args[0]) && !isLit { // `uint64(1 << s)`: the untyped constant takes the type of the conversion, the shift is a uint64 shift
+				w = tyU64
+			}
+			xs, xt := f.expr(v.Args[0], w, c)
 			switch xt.k {
 			case "int", "int64":
 				return "uintOfInt " + parenImp(xs), tyU64
@@ -757,6 +915,22 @@ func (f *impFn) call(v *ast.CallExpr, want *ity, c *ictx) (string, *ity) {
 			}
 			return "makeBytes " + parenImp(ns), t
 		}
+		if t.k == "slice" && (len(v.Args) == 2 || len(v.Args) == 3) && p.tg.methodCalls {
+			// make([]T, n, cap): n zero values (the capacity has no meaning for a slice VALUE; it is translated for its guards only)
+			ns, nt := f.expr(v.Args[1], tyInt, c)
+			if nt.k != "int" {
+				p.die(v, "make length")
+			}
+			if len(v.Args) == 3 {
+				if _, ct := f.expr(v.Args[2], tyInt, c); ct.k != "int" {
+					p.die(v, "make capacity")
+				}
+			}
+			if t.eq(tyBytes) {
+				return "makeBytes " + parenImp(ns), t
+			}
+			return "(List.replicate " + parenImp(ns) + ".toNat " + p.zero(t.elem) + " : " + p.lty(t, true) + ")", t
+		}
 		if t.k == "slice" && t.elem.k == "elem" && len(v.Args) == 2 && p.tg.mode == "h2f" {
 			// make([]Element, n): n zero values of the element type (`default`; a negative n panics in Go: not modelled)
 			ns, nt := f.expr(v.Args[1], tyInt, c)
@@ -767,6 +941,17 @@ func (f *impFn) call(v *ast.CallExpr, want *ity, c *ictx) (string, *ity) {
 		}
 		p.die(v, "make(%v, …)", t)
 	case "append":
+		if v.Ellipsis.IsValid() && len(v.Args) == 2 {
+			// append(x[:0:0], x...): a copy of x (same value)
+			isZero := func(e ast.Expr) bool { b, ok := e.(*ast.BasicLit); return e == nil || (ok && b.Value == "0") }
+			if se, ok := v.Args[0].(*ast.SliceExpr); ok && se.Slice3 && isZero(se.Low) && se.High != nil && isZero(se.High) && se.Max != nil && isZero(se.Max) && exprText(se.X) == exprText(v.Args[1]) {
+				xs, xt := f.expr(v.Args[1], want, c)
+				if xt.k != "slice" {
+					p.die(v, "append(x[:0:0], x...) on %v", xt)
+				}
+				return xs, xt
+			}
+		}
 		if v.Ellipsis.IsValid() || len(v.Args) < 2 {
 			p.die(v, "append form")
 		}
@@ -784,6 +969,16 @@ func (f *impFn) call(v *ast.CallExpr, want *ity, c *ictx) (string, *ity) {
 		}
 		return parenImp(xs) + " ++ [" + strings.Join(els, ", ") + "]", xt
 	case "fmt.Errorf":
+		if len(v.Args) >= 1 {
+			if bl, ok := v.Args[0].(*ast.BasicLit); ok && bl.Kind == token.STRING && !strings.Contains(bl.Value, "%w") && p.tg.methodCalls {
+				// an error identified by its format string; the formatted values are not part of the model (they are still translated:
+				// their dereferences must be guarded)
+				for _, a := range v.Args[1:] {
+					f.expr(a, nil, c)
+				}
+				return "Err.sentinel " + bl.Value, tyErr
+			}
+		}
 		if len(v.Args) == 2 {
 			if bl, ok := v.Args[0].(*ast.BasicLit); ok && bl.Kind == token.STRING && strings.Count(bl.Value, "%") == 1 && strings.Contains(bl.Value, "%w") {
 				es, et := f.expr(v.Args[1], tyErr, c)
